@@ -104,6 +104,16 @@ CHECKS = {
         note="Sum/difference exactness additionally assumes the raw operator on the scaled values does not overflow; x % -1 at the minimum is "
              "excluded (UB of the raw operator).  Floating reps: covered through C05/C15 tolerances only.",
         technique="TLA+ pipeline model checked by TLC + TLC-emitted contracts swept against the real operators, adjudicated by TLC (BigInt)", ref="6/C08"),
+    "C13": dict(
+        text="The type-state machine's same-unit actions carry the raw C++ operator's result rep and value: TLC derives the (operator, rep) -> "
+             "result-rep table (integral promotion, usual arithmetic conversions) and emits it; each row is compiled as decltype assertions "
+             "against both the table and the raw operator's own type, next to layout facts for all 57 library units + compound units x 11 reps "
+             "(Quantity and QuantityPoint).  A raw-twin sweep runs every 8-bit operand pair (boundary/random for wider reps) through + - % "
+             "unary+- += -= *= /= scalar * / and the comparisons, bit-compares with the raw operator, and TLC re-derives sampled records with "
+             "BigInt integer semantics; floating reps incl. NaN payloads/inf/-0 are bit-compared, unit(x).in(unit) round-trips 2^22 random "
+             "patterns per float type (all 2^32 float patterns in the thorough tier).",
+        note="Raw operations that are UB are outside the domain.  The layout part is decided by the compiler; the specification contributes the table and the integer semantics.",
+        technique="TLC-derived operator/rep table compiled as decltype assertions + raw-twin sweep with TLC-validated records", ref="6/C13"),
 }
 
 
